@@ -5,6 +5,7 @@ package c09
 import (
 	"fmt"
 	"math/rand"
+	"regexp"
 	"strings"
 	"sync"
 
@@ -80,8 +81,14 @@ func Run(r *ev.Run, replay string) {
 				}
 				for i := 0; i < n/shards; i++ {
 					a, b := sg.gen(rng), sg.gen(rng)
-					if rng.Intn(10) == 0 {
+					switch k := rng.Intn(10); {
+					case k == 0:
 						b = a
+					case k < 5:
+						// B shares a bound with A: same version literal under another
+						// operator, or A with one comparison made strict/non-strict.
+						b = neighbour(sg, a, rng)
+						r.Count("pairs_sharing_a_bound:"+sg.name, 1)
 					}
 					pair(r, sg, a, b, bg, rng)
 				}
@@ -143,6 +150,9 @@ func pair(r *ev.Run, sg sysgen, a, b string, extra []string, rng *rand.Rand) {
 	viol := func(law, what string, v string) {
 		cc := c
 		cc.Cands = []string{v}
+		if userWrittenMinimum(a, b, v) {
+			law = "user-written-minimum"
+		}
 		r.Violation("C09:"+sg.name+":"+law, fmt.Sprintf("%s: A=%q B=%q: %s", sg.name, a, b, what), cc)
 	}
 	op := func(x, y string, union bool) (semver.Set, error) {
@@ -318,4 +328,80 @@ func adjacentMergeGap(sg sysgen, a, b *semver.Constraint, v *semver.Version) boo
 		return err == nil && a.MatchVersionPrerelease(w) && b.MatchVersionPrerelease(w)
 	}
 	return in(str) && in(pred)
+}
+
+var boundLit = regexp.MustCompile(`[0-9]+\.[0-9]+\.[0-9]+(-[0-9A-Za-z.-]*[0-9A-Za-z])?`)
+
+// neighbour builds a constraint that touches a: it reuses one of the bounds
+// printed in a's set (or a version next to it) under a random operator, or is a
+// itself with one operator toggled between strict and non-strict.
+func neighbour(sg sysgen, a string, rng *rand.Rand) string {
+	c := parse(sg, a)
+	if c == nil {
+		return sg.gen(rng)
+	}
+	lits := boundLit.FindAllString(c.Set().String(), -1)
+	if len(lits) == 0 {
+		return sg.gen(rng)
+	}
+	v := lits[rng.Intn(len(lits))]
+	if sg.name == "Go" {
+		return "v" + v
+	}
+	if rng.Intn(4) == 0 {
+		for _, sw := range [][2]string{{"<=", "<"}, {">=", ">"}} {
+			from, to := sw[0], sw[1]
+			if rng.Intn(2) == 0 {
+				from, to = to, from
+			}
+			if i := strings.Index(a, from); i >= 0 && (from != "<" && from != ">" || !strings.HasPrefix(a[i:], from+"=")) {
+				return a[:i] + to + a[i+len(from):]
+			}
+		}
+	}
+	var x, y, z int
+	fmt.Sscanf(v, "%d.%d.%d", &x, &y, &z)
+	next := fmt.Sprintf("%d.0.0", x+1)
+	prev := fmt.Sprintf("%d.%d.%d", x, y, z)
+	switch {
+	case z > 0:
+		prev = fmt.Sprintf("%d.%d.%d", x, y, z-1)
+	case y > 0:
+		prev = fmt.Sprintf("%d.%d.0", x, y-1)
+	case x > 0:
+		prev = fmt.Sprintf("%d.0.0", x-1)
+	}
+	sep := " "
+	if sg.name == "Cargo" {
+		sep = ", "
+	}
+	forms := []string{">=" + v, "<=" + v, ">" + v, "<" + v, "=" + v, "^" + v, "~" + v,
+		">=" + v + sep + "<" + next, ">" + prev + sep + "<=" + v, ">=" + prev + sep + "<" + v, ">" + v + sep + "<=" + next, ">=" + prev + sep + "<=" + v}
+	if sg.name != "Cargo" {
+		forms = append(forms, prev+" - "+v, v+" - "+next, "<"+v+" || >"+v, "<="+prev+" || >="+v)
+	}
+	return forms[rng.Intn(len(forms))]
+}
+
+// userWrittenMinimum recognises the recorded finding about the minimum version
+// 0.0.0-0 written out by the user: the library marks its own synthetic 0.0.0-0
+// bound as "not user-provided" (so that it does not admit prereleases), and
+// when a user-written 0.0.0-0 meets it in a union or intersection the mark of
+// whichever object survives decides whether prereleases of 0.0.0 match. The
+// shape: an operand names 0.0.0-0 literally and the candidate is a prerelease
+// of 0.0.0.
+func userWrittenMinimum(a, b, v string) bool {
+	v = strings.TrimPrefix(v, "v")
+	if !strings.HasPrefix(v, "0.0.0-") {
+		return false
+	}
+	has := func(s string) bool {
+		for _, t := range boundLit.FindAllString(s, -1) {
+			if t == "0.0.0-0" {
+				return true
+			}
+		}
+		return false
+	}
+	return has(a) || has(b)
 }
